@@ -267,27 +267,34 @@ def section_name():
 import pC11  # key_name / key_rdataset / content helpers shared with C11
 
 
+class Boom(Exception):
+    """raised by a writer program inside its `with zone.writer()` block: must roll back"""
+
+
 def writer_fn(z, prog):
-    _, repl, edits, commit = prog
+    _, repl, edits, commit = prog   # commit: 1 = leave the with block normally, 0 = rollback(), 2 = raise
 
     def fn(w):
         w.todo = len(edits)
         w.phase = "waiting"
-        txn = z.writer(bool(repl))
-        w.phase = "body"
-        w.txn = txn
-        for i, e in enumerate(edits):
-            SCHED.gate("edit", len(edits) - i)
-            w.todo = len(edits) - i - 1
-            if e[0] == 0:
-                txn.replace(pC11.key_name(e[1]), pC11.key_rdataset(e[1], e[2]))
-            else:
-                pC11.delete_key(txn, e[1])
-        w.phase = "ending"
-        if commit:
-            txn.commit()
-        else:
-            txn.rollback()
+        try:
+            with z.writer(bool(repl)) as txn:
+                w.phase = "body"
+                w.txn = txn
+                for i, e in enumerate(edits):
+                    SCHED.gate("edit", len(edits) - i)
+                    w.todo = len(edits) - i - 1
+                    if e[0] == 0:
+                        txn.replace(pC11.key_name(e[1]), pC11.key_rdataset(e[1], e[2]))
+                    else:
+                        pC11.delete_key(txn, e[1])
+                w.phase = "ending"
+                if commit == 0:
+                    txn.rollback()
+                elif commit == 2:
+                    raise Boom()
+        except Boom:
+            pass
         w.phase = "ended"
 
     return fn
@@ -308,7 +315,11 @@ def reader_fn(z, prog):
         w.result = [txn.version.id, pC11.txn_content(txn)]
         SCHED.gate("read")
         w.result2 = [txn.version.id, pC11.txn_content(txn)]
-        txn.rollback()
+        if w.tid % 2:
+            with txn:
+                pass            # Transaction.__exit__ commits a read transaction: _end_read
+        else:
+            txn.rollback()
 
     return fn
 
